@@ -1123,6 +1123,196 @@ class Normalizer:
                 ast.fix_missing_locations(st)
                 self.log.append(f"{f.qualname}:{st.lineno} <- enumerate with a destructuring target written as a counting loop")
 
+    def _canonical_unpassed_defaults(self):
+        """A parameter of a *private* package function that has a constant default and that no call site in the package passes (the
+        function is never used as a value either) has its default as its value: `def _f(x, eps=0): ... eps ...` is `... 0 ...`.
+        A parameter that the body rebinds gets `p = <default>` as the body's first statement instead."""
+        sites = {}
+        refs = {}
+        for g in self.prog.functions.values():
+            for n in ast.walk(g.node):
+                if isinstance(n, ast.Call):
+                    try:
+                        c = self.res.callee(g, n)
+                    except Exception:
+                        continue
+                    if c.func is not None:
+                        sites.setdefault(c.func.qualname, []).append((c, n))
+                if isinstance(n, (ast.Name, ast.Attribute)):
+                    nm = n.id if isinstance(n, ast.Name) else n.attr
+                    refs[nm] = refs.get(nm, 0) + 1
+        for f in self.prog.functions.values():
+            if not f.name.startswith("_") or f.name.startswith("__") or f.parent is not None or f.kind not in ("function", "method", "staticmethod"):
+                continue
+            a = f.node.args
+            if a.vararg or a.kwarg or not a.defaults or f.node.decorator_list:
+                continue
+            calls = sites.get(f.qualname, [])
+            if not calls or refs.get(f.name, 0) != len(calls):
+                continue          # used as a value somewhere (passed to a pool, stored): its parameters may be bound by anybody
+            pos = [x.arg for x in a.posonlyargs + a.args]
+            with_default = dict(zip(pos[len(pos) - len(a.defaults):], a.defaults))
+            skip_self = 1 if f.kind == "method" else 0
+            for p_, d_ in with_default.items():
+                if not (isinstance(d_, ast.Constant) or (isinstance(d_, ast.UnaryOp) and isinstance(d_.op, (ast.USub, ast.UAdd)) and isinstance(d_.operand, ast.Constant))):
+                    continue
+                k_ = pos.index(p_) - skip_self
+                passed = False
+                for c, n in calls:
+                    if any(isinstance(x, ast.Starred) for x in n.args) or any(kw.arg is None or kw.arg == p_ for kw in n.keywords) or len(n.args) > k_:
+                        passed = True
+                if passed:
+                    continue
+                body_nodes = [x for st in f.node.body for x in ast.walk(st)]
+                if any(isinstance(x, (ast.FunctionDef, ast.Lambda)) for x in body_nodes):
+                    continue
+                stored = any(isinstance(x, ast.Name) and x.id == p_ and not isinstance(x.ctx, ast.Load) for x in body_nodes)
+                if stored:
+                    init = ast.fix_missing_locations(ast.copy_location(ast.Assign([ast.Name(p_, ast.Store())], copy.deepcopy(d_)), f.node.body[0]))
+                    k0 = 1 if (isinstance(f.node.body[0], ast.Expr) and isinstance(f.node.body[0].value, ast.Constant) and isinstance(f.node.body[0].value.value, str)) else 0
+                    f.node.body.insert(k0, init)
+                else:
+                    f.node.body = [ast.fix_missing_locations(_Renamer({p_: copy.deepcopy(d_)}).visit(st)) for st in f.node.body]
+                # the parameter itself goes: nobody binds it
+                idx_ = [x.arg for x in a.args].index(p_) if p_ in [x.arg for x in a.args] else None
+                if idx_ is not None:
+                    nd = len(a.defaults)
+                    di = idx_ - (len(a.args) - nd)
+                    del a.args[idx_]
+                    if 0 <= di < nd:
+                        del a.defaults[di]
+                self.log.append(f"{f.qualname} <- parameter `{p_}` that no caller passes has its default {ast.unparse(d_)}")
+
+    def _canonical_branch_locals(self):
+        """`if c: a = X; b = Y else: a = X2; b = Y2` followed by single uses of a and b (nothing else reads them) is those uses with
+        `X if c else X2` and `Y if c else Y2` written in - c call-free and not affected by what lies between."""
+        for f in self.prog.functions.values():
+            for n in ast.walk(f.node):
+                for fld in ("body", "orelse", "finalbody"):
+                    lst = getattr(n, fld, None)
+                    if not (isinstance(lst, list) and lst and isinstance(lst[0], ast.stmt)):
+                        continue
+                    i = 0
+                    while i < len(lst):
+                        st = lst[i]
+                        i += 1
+                        if not (isinstance(st, ast.If) and st.orelse and len(st.body) == len(st.orelse) >= 1):
+                            continue
+                        simple = lambda s_: isinstance(s_, ast.Assign) and len(s_.targets) == 1 and isinstance(s_.targets[0], ast.Name) \
+                            and all(isinstance(x, PURE_NODES) and not isinstance(x, ast.Call) for x in ast.walk(s_.value))
+                        if not all(simple(s_) for s_ in st.body + st.orelse):
+                            continue
+                        names = [s_.targets[0].id for s_ in st.body]
+                        if names != [s_.targets[0].id for s_ in st.orelse] or len(set(names)) != len(names):
+                            continue
+                        if not all(isinstance(x, PURE_NODES) and not isinstance(x, ast.Call) for x in ast.walk(st.test)):
+                            continue
+                        reads_in_branches = {x.id for s_ in st.body + st.orelse for x in ast.walk(s_.value) if isinstance(x, ast.Name)}
+                        if reads_in_branches & set(names):
+                            continue
+                        k = len(names)
+                        following = lst[i:i + k]
+                        occ = {nm: [x for x in ast.walk(f.node) if isinstance(x, ast.Name) and x.id == nm] for nm in names}
+                        ok = len(following) == k
+                        for nm in names:
+                            loads = [x for x in occ[nm] if isinstance(x.ctx, ast.Load)]
+                            stores = [x for x in occ[nm] if not isinstance(x.ctx, ast.Load)]
+                            if len(stores) != 2 or len(loads) != 1 or not any(loads[0] is y for s_ in following for y in ast.walk(s_)):
+                                ok = False
+                        if not ok or not all(isinstance(s_, ast.Assign) and len(s_.targets) == 1 and isinstance(s_.targets[0], (ast.Subscript, ast.Attribute, ast.Name))
+                                             for s_ in following):
+                            continue
+                        # the test must read the same values at every use: nothing it mentions is written by the statements in between
+                        test_names = {x.id for x in ast.walk(st.test) if isinstance(x, ast.Name)}
+                        written = set()
+                        for s_ in following:
+                            written.add(_root(s_.targets[0]) if not isinstance(s_.targets[0], ast.Name) else s_.targets[0].id)
+                        if written & test_names or None in written:
+                            continue
+                        mapping = {nm: ast.IfExp(test=copy.deepcopy(st.test), body=b_.value, orelse=o_.value) for nm, b_, o_ in zip(names, st.body, st.orelse)}
+                        for j in range(i, i + k):
+                            lst[j] = ast.fix_missing_locations(_Renamer({nm: mapping[nm] for nm in names}).visit(lst[j]))
+                        i -= 1
+                        del lst[i]
+                        self.log.append(f"{f.qualname}:{st.lineno} <- branch-assigned locals written into their single uses")
+
+    def _canonical_generator_loops(self):
+        """`for x in (y for y in XS if c): BODY` is `for y in XS: if c: BODY[x := y]` (one generator, the element is the bound name)."""
+        for f in self.prog.functions.values():
+            # a generator bound to a local by the statement just before the loop that consumes it (its only use) is that loop's iterable
+            for n in ast.walk(f.node):
+                for fld in ("body", "orelse", "finalbody"):
+                    lst = getattr(n, fld, None)
+                    if not (isinstance(lst, list) and lst and isinstance(lst[0], ast.stmt)):
+                        continue
+                    for i in range(len(lst) - 1):
+                        a_, b_ = lst[i], lst[i + 1]
+                        if isinstance(a_, ast.Assign) and len(a_.targets) == 1 and isinstance(a_.targets[0], ast.Name) and isinstance(a_.value, ast.GeneratorExp) \
+                                and isinstance(b_, ast.For) and isinstance(b_.iter, ast.Name) and b_.iter.id == a_.targets[0].id \
+                                and sum(1 for x in ast.walk(f.node) if isinstance(x, ast.Name) and x.id == a_.targets[0].id) == 2:
+                            b_.iter = a_.value
+                            lst[i] = ast.copy_location(ast.Pass(), a_)
+            for st in [n for n in ast.walk(f.node) if isinstance(n, ast.For)]:
+                it = st.iter
+                if not (isinstance(it, ast.GeneratorExp) and len(it.generators) == 1 and not it.generators[0].is_async and isinstance(it.generators[0].target, ast.Name)
+                        and isinstance(it.elt, ast.Name) and it.elt.id == it.generators[0].target.id and isinstance(st.target, ast.Name) and not st.orelse):
+                    continue
+                g = it.generators[0]
+                inner, outer = g.target.id, st.target.id
+                body_nodes = [x for b_ in st.body for x in ast.walk(b_)]
+                if any(isinstance(x, (ast.Break, ast.FunctionDef, ast.Lambda)) for x in body_nodes):
+                    continue
+                if inner != outer:
+                    if any(isinstance(x, ast.Name) and x.id == inner for x in body_nodes) or \
+                            any(isinstance(x, ast.Name) and x.id == outer and not isinstance(x.ctx, ast.Load) for x in body_nodes):
+                        continue
+                    st.body = [ast.fix_missing_locations(_Renamer({outer: inner}).visit(b_)) for b_ in st.body]
+                    if any(isinstance(x, ast.Name) and x.id == outer and isinstance(x.ctx, ast.Load) and not any(x is y for b_ in st.body for y in ast.walk(b_))
+                           for x in ast.walk(f.node)):
+                        continue
+                if g.ifs:
+                    test = g.ifs[0] if len(g.ifs) == 1 else ast.BoolOp(ast.And(), list(g.ifs))
+                    st.body = [ast.fix_missing_locations(ast.copy_location(ast.If(test=test, body=st.body, orelse=[]), st))]
+                st.iter = g.iter
+                st.target = ast.copy_location(ast.Name(inner, ast.Store()), st.target)
+                ast.fix_missing_locations(st)
+                self.log.append(f"{f.qualname}:{st.lineno} <- loop over a filtering generator written as a guarded loop")
+
+    def _canonical_descending_index(self):
+        """`for v in range(N): i = A - v; BODY` (v used for nothing else, i not rebound, A loop-invariant) is
+        `for i in range(A, A - N, -1): BODY`: the same values of i in the same order."""
+        for f in self.prog.functions.values():
+            for st in [n for n in ast.walk(f.node) if isinstance(n, ast.For)]:
+                if not (isinstance(st.target, ast.Name) and isinstance(st.iter, ast.Call) and isinstance(st.iter.func, ast.Name) and st.iter.func.id == "range"
+                        and len(st.iter.args) == 1 and not st.iter.keywords and not st.orelse and len(st.body) >= 2):
+                    continue
+                v = st.target.id
+                first = st.body[0]
+                if not (isinstance(first, ast.Assign) and len(first.targets) == 1 and isinstance(first.targets[0], ast.Name) and isinstance(first.value, ast.BinOp)
+                        and isinstance(first.value.op, ast.Sub) and isinstance(first.value.right, ast.Name) and first.value.right.id == v):
+                    continue
+                i_ = first.targets[0].id
+                A, N = first.value.left, st.iter.args[0]
+                if not all(isinstance(x, PURE_NODES) and not isinstance(x, ast.Call) for e in (A, N) for x in ast.walk(e)):
+                    continue
+                inv = {x.id for e in (A, N) for x in ast.walk(e) if isinstance(x, ast.Name)}
+                if v in inv or i_ in inv or i_ == v:
+                    continue
+                rest_nodes = [x for b_ in st.body[1:] for x in ast.walk(b_)]
+                if any(isinstance(x, ast.Name) and x.id == v for x in rest_nodes) or \
+                        any(isinstance(x, ast.Name) and x.id in inv | {i_} and not isinstance(x.ctx, ast.Load) for x in rest_nodes) or \
+                        any(isinstance(x, (ast.FunctionDef, ast.Lambda)) for x in rest_nodes):
+                    continue
+                all_body = [x for b_ in st.body for x in ast.walk(b_)]
+                if any(isinstance(x, ast.Name) and x.id == v and isinstance(x.ctx, ast.Load) and not any(x is y for y in all_body) for x in ast.walk(f.node)):
+                    continue
+                stop = ast.BinOp(left=copy.deepcopy(A), op=ast.Sub(), right=copy.deepcopy(N))
+                st.iter = ast.copy_location(ast.Call(ast.Name("range", ast.Load()), [copy.deepcopy(A), stop, ast.UnaryOp(ast.USub(), ast.Constant(1))], []), st.iter)
+                st.target = ast.copy_location(ast.Name(i_, ast.Store()), st.target)
+                st.body = st.body[1:]
+                ast.fix_missing_locations(st)
+                self.log.append(f"{f.qualname}:{st.lineno} <- counting loop with a descending index written as a descending range")
+
     def _canonical_continues(self):
         """Inside a loop body `if c: A; continue` followed by REST is `if c: A else: REST` (when the `if` has no else and its body ends
         with the `continue`): the same iterations run the same statements, written without a jump."""
@@ -1206,6 +1396,9 @@ class Normalizer:
         self._canonical_enumerate_start()
         self._canonical_enumerated_pairs()
         self._canonical_enumerated_slices()
+        self._canonical_generator_loops()
+        self._canonical_unpassed_defaults()
+        self._canonical_branch_locals()
         self._canonical_running_totals()
         self._canonical_star_args()
         self._canonical_conditional_stores()
@@ -1216,6 +1409,7 @@ class Normalizer:
         self._canonical_sorts()
         self._canonical_temps()
         self._canonical_defaults()
+        self._canonical_descending_index()
         self._canonical_range_offsets()
         if not self.known:
             return self
